@@ -62,6 +62,10 @@ def stepKeys (p : KeysProg) (toks : List String) : KeysProg × String :=
     match parsePK 64 pk.toList, m.toNat?, parseSig 64 sg.toList with
     | some (k, []), some m, some (s, []) => (p, showBool (verify k m s))
     | _, _, _ => (p, "bad-op")
+  | ["depth", limit, pk] =>
+    match limit.toNat?, parsePK 64 pk.toList with
+    | some l, some (.multi ks, []) => (p, showBool (validDepth l ks))
+    | _, _ => (p, "bad-op")
   | ["kb.new"] => ({ kb := [], armors := [] }, "ok")
   | ["kb.create", k, pass] =>
     out (kstep p.kb (.create ((k.toNat?).getD 0) pass)) { p with objs := (k.toNat?).getD 0 :: p.objs }
